@@ -177,12 +177,44 @@ impl Precedence {
     }
 }
 
+/// Writes the name of a unit or property so that the lexer reads it
+/// back as that one name: bare when it is a plain identifier, and in
+/// double quotes otherwise (`in`, `to` and `per` are keywords, and names
+/// from definition files can contain nearly any character).
+pub(crate) fn write_name(fmt: &mut fmt::Formatter<'_>, name: &str) -> fmt::Result {
+    use crate::parsing::text_query::{Token, TokenIterator};
+    let mut tokens = TokenIterator::new(name);
+    let bare = matches!(tokens.next(), Some(Token::Ident(ref s)) if s == name)
+        && matches!(tokens.next(), Some(Token::Eof));
+    if bare {
+        write!(fmt, "{}", name)
+    } else {
+        write!(fmt, "\"")?;
+        for c in name.chars() {
+            if c == '"' || c == '\\' {
+                write!(fmt, "\\")?;
+            }
+            write!(fmt, "{}", c)?;
+        }
+        write!(fmt, "\"")
+    }
+}
+
 impl fmt::Display for Expr {
     fn fmt(&self, fmt: &mut fmt::Formatter<'_>) -> fmt::Result {
         fn recurse(expr: &Expr, fmt: &mut fmt::Formatter<'_>, prec: Precedence) -> fmt::Result {
             match *expr {
-                Expr::Unit { ref name } => write!(fmt, "{}", name),
-                Expr::Quote { ref string } => write!(fmt, "'{}'", string),
+                Expr::Unit { ref name } => write_name(fmt, name),
+                Expr::Quote { ref string } => {
+                    write!(fmt, "'")?;
+                    for c in string.chars() {
+                        if c == '\'' || c == '\\' {
+                            write!(fmt, "\\")?;
+                        }
+                        write!(fmt, "{}", c)?;
+                    }
+                    write!(fmt, "'")
+                }
                 Expr::Const { ref value } => {
                     let (_exact, val) = value.to_string(10, Digits::Default);
                     write!(fmt, "{}", val)
@@ -271,7 +303,8 @@ impl fmt::Display for Expr {
                     if prec < Precedence::Add {
                         write!(fmt, "(")?;
                     }
-                    write!(fmt, "{} of ", property)?;
+                    write_name(fmt, property)?;
+                    write!(fmt, " of ")?;
                     recurse(expr, fmt, Precedence::Mul)?;
                     if prec < Precedence::Add {
                         write!(fmt, ")")?;
